@@ -7,7 +7,7 @@ HOOKS = {
     "add_only": True,
 }
 ENGINES = [
-    {"name": "grid", "path": "/verif/mc/props", "serves_properties": ["C04"],
+    {"name": "grid", "path": "/verif/mc/props", "serves_properties": ["C04", "C06"],
      "kind_free_text": "complete Cartesian products of finite input alphabets executed on the real code and compared with an explicit oracle or metamorphic relation"},
     {"name": "fault", "path": "/verif/mc/props/C08.py", "serves_properties": ["C08"],
      "kind_free_text": "fault-point enumerator: public-API fault menu x position and sys.settrace call-level injection, snapshot oracle"},
@@ -86,5 +86,15 @@ CHECKS["C04"] = dict(
     note="Path kinds include the shortcuts' edge cases: unit rotation first then rotated, orientation returning to its start, +a/-a "
          "conjugate quaternions. Reference global field = getB(sources, ndarray) of the same library (array observers bypass sensor "
          "handling). rel. tolerance 1e-10.")
+CHECKS["C06"] = dict(
+    engine="grid", level="exploration", design_ref="DESIGN.md §4 C06",
+    technique="bounded-exhaustive enumeration of call compositions and batch sizes on the real code, each output element compared with the single-object single-observer static evaluation",
+    text="All ordered source lists up to length 2 (thorough 3) over 15 concrete sources (Polylines with 2/3/3/5 vertices, four "
+         "TriangularMeshes with 4/12/12/12 faces, Tetrahedron, Cuboid, CylinderSegment, Cylinder, Circle, two CustomSources) x per-object "
+         "path length 1..3 (rotating paths) x 4 observer forms x B/H/J, mesh sequences up to length 4, aliased duplicates; plus batch "
+         "sweeps n=1..20 in every cyclic rotation of a row alphabet (incl. on-surface, r=r0, axis, Taylor-switch rows) for Cylinder, "
+         "Circle, CylinderSegment, Cuboid, mesh and Polyline. Every element is compared with the element-by-element evaluation.",
+    note="rel. tolerance 1e-10 (measured scalar/vector routine differences <= 4e-16); the reference is the library's own one-source, "
+         "one-observer static call, i.e. this decides independence from the rest of the call, not absolute correctness (C01).")
 _todo = "check not built yet in this session (planned, see DESIGN.md §4); nothing is claimed for it"
 NOT_APPLICABLE = [{"property_id": f"C{i:02d}", "reason": _todo} for i in range(1, 21) if f"C{i:02d}" not in CHECKS]
